@@ -62,6 +62,9 @@ pub struct Profile {
     pub poly_bias: u32,
     /// only input and output signals (C09 domain)
     pub no_intermediate: bool,
+    /// intermediate signals may be declared in nested blocks under names from the pool, so a
+    /// signal can shadow (or be declared beside) a variable or another signal of the same name
+    pub nested_signal_decls: bool,
 }
 
 #[derive(Clone, Debug)]
@@ -101,6 +104,7 @@ impl Profile {
             calls_control_only: false,
             poly_bias: 0,
             no_intermediate: false,
+            nested_signal_decls: false,
         }
     }
     pub fn sem(template: bool, prime: BigUint) -> Profile {
@@ -131,6 +135,7 @@ impl Profile {
             calls_control_only: false,
             poly_bias: 50,
             no_intermediate: false,
+            nested_signal_decls: false,
         }
     }
 }
@@ -589,6 +594,29 @@ impl<'a, 'b> Gen<'a, 'b> {
         Stmt::Decl { id, kind: DeclKind::Var, syms, init_op: AssignOp::Var }
     }
 
+    /// `signal <pool name>;` or `signal <pool name> <== e;` in the current block.
+    fn signal_decl(&mut self) -> Stmt {
+        let name = self.pick_decl_name();
+        let sid = self.ids.next();
+        let mut init = None;
+        let mut init_op = AssignOp::Constrain;
+        if self.t.chance(110) {
+            init = Some(self.expr(2));
+            init_op = if self.t.chance(128) { AssignOp::Constrain } else { AssignOp::Signal };
+        }
+        let has_init = init.is_some();
+        let key = self.declare(&name, Ty::Sig(SigKind::Intermediate), None, false);
+        if has_init {
+            self.assigned.insert(key);
+        }
+        Stmt::Decl {
+            id: self.ids.next(),
+            kind: DeclKind::Signal(SigKind::Intermediate, vec![]),
+            syms: vec![DeclSym { id: sid, sub_id: self.ids.next(), name, dims: vec![], init }],
+            init_op,
+        }
+    }
+
     /// Assignable local targets (not protected counters).
     fn local_targets(&self) -> Vec<VarInfo> {
         self.visible()
@@ -812,6 +840,9 @@ impl<'a, 'b> Gen<'a, 'b> {
         self.budget = self.budget.saturating_sub(1);
         let roll = self.t.below(if depth == 0 { 8 } else { 14 });
         match roll {
+            0 | 1 if decl_ok && self.p.template && self.p.signals && self.p.nested_signal_decls && self.t.chance(90) => {
+                self.signal_decl()
+            }
             0 | 1 if decl_ok => self.var_decl(),
             0..=4 => {
                 if self.p.signals && (self.in_loop == 0 || self.p.nested_signal_assign) && self.t.chance(60) {
